@@ -248,6 +248,7 @@ class Analysis:
         self.summaries = summaries or {}
         self.assume = list(assume)
         self.requires = requires or {}
+        self._ovf = {}
         self.atom_src = {}   # atom -> (kind, detail)
         self.atom_ty = {}
         self.phi_src = {}    # phi atom -> set of Lin it merges
@@ -429,18 +430,21 @@ class Analysis:
                 v = a.add(c)
                 if op == "AddWithOverflow":
                     fields[0] = v
+                    self._ovf[(bb, d)] = ("Add", v, a, c)
                 else:
                     val = v
             elif op in ("Sub", "SubUnchecked", "SubWithOverflow") and a is not None and c is not None:
                 v = a.sub(c)
                 if op == "SubWithOverflow":
                     fields[0] = v
+                    self._ovf[(bb, d)] = ("Sub", v, a, c)
                 else:
                     val = v
             elif op in ("Mul", "MulUnchecked", "MulWithOverflow") and a is not None and c is not None and (a.is_const() or c.is_const()):
                 v = c.scale(a.c) if a.is_const() else a.scale(c.c)
                 if op == "MulWithOverflow":
                     fields[0] = v
+                    self._ovf[(bb, d)] = ("Mul", v, a, c)
                 else:
                     val = v
             elif op in ("Lt", "Le", "Gt", "Ge", "Eq", "Ne") and a is not None and c is not None:
@@ -639,6 +643,27 @@ class Analysis:
                     if d.c <= 0 and d.t and all(v < 0 and self.unsigned_atom(a) for a, v in d.t.items()):
                         return ("facts %r <= 0 and %r <= 0 (and x >= 0)" % (f1, f2), [f1, f2])
         return None
+
+    def upper(self, st, lin):
+        """an upper bound of a linear expression from the value ranges of its atoms (type width, `atom <= k` facts), or None"""
+        ub = lin.c
+        for a, v in lin.t.items():
+            aty = self.atom_ty.get(a, "") if a[0] != "arg" else self.ty(a[1])
+            if v > 0:
+                best = None
+                if UNSIGNED.match(aty) and WIDTH.get(aty, 64) <= 32:
+                    best = (1 << WIDTH[aty]) - 1
+                for f in st.facts:
+                    if len(f.t) == 1 and f.t.get(a, 0) > 0:
+                        k_ = (-f.c) // f.t[a]
+                        best = k_ if best is None else min(best, k_)
+                if best is None:
+                    return None
+                ub += v * best
+            else:
+                if not self.unsigned_atom(a):
+                    return None
+        return ub
 
     # ---- sinks ---------------------------------------------------------------------------------------------------
     def sink(self, st, bb, kind, what, goals, index_lins, loc):
@@ -1009,6 +1034,27 @@ class Analysis:
                         self.sink(st, bb, "bounds", "slice/array index", [cv[1].addc(1).sub(cv[2])], [cv[1]], loc)
                     else:
                         self.sink(st, bb, "bounds", "slice/array index", [None], [], loc)
+                if str(t.get("m", "")).startswith("Overflow(") and c["k"] in ("cp", "mv") and len(c["p"]) == 2:
+                    info = self._ovf.get((bb, c["p"][0]))
+                    tty = self.ty(c["p"][0])
+                    m_ = re.match(r"^\((\w+), bool\)$", tty)
+                    if info and m_ and m_.group(1) in WIDTH:
+                        opn, v, a_, c_ = info
+                        ity = m_.group(1)
+                        loc = "%s:%d" % (b.file, t.get("l", 0))
+                        if UNSIGNED.match(ity):
+                            if opn == "Sub":
+                                goals = [c_.sub(a_)]
+                                okp = self.prove(st, goals[0]) is not None
+                            else:
+                                ub = self.upper(st, v)
+                                okp = ub is not None and ub <= (1 << WIDTH[ity]) - 1
+                                goals = [v.addc(-((1 << WIDTH[ity]) - 1))]
+                                if not okp:
+                                    okp = self.prove(st, goals[0]) is not None
+                            sk = Sink(self.b, bb, "overflow", "%s in %s" % (opn, ity), goals, [x for x in (a_, c_) if x is not None], loc, okp, ["range" if okp else None])
+                            sk.used_assumptions = set()
+                            self._sinks_now.append(sk)
                 s2 = st
                 if cv is not None:
                     s2 = st.copy()
@@ -1076,7 +1122,8 @@ class Analysis:
                 if v is not None and all(a[0] == "arg" for a in v.atoms()):
                     self.ret = v
         for s in self.sinks:
-            s.taint = self.taint_of(s.index_lins)
+            # what the operation depends on: the index AND the length it is compared with (`output[pos]` into vec![0; header.output_size])
+            s.taint = self.taint_of(list(s.index_lins) + [g for g in s.goals if g is not None])
 
     def taint_of(self, lins):
         out = set()
@@ -1157,17 +1204,21 @@ def analyse_closure(prog, cl, rounds=4, krate_prefix="cascette_"):
             if unp and bid in has_caller and not b.root:
                 # (1) goals that only mention the parameters: the callers decide
                 for sk in unp:
+                    if sk.kind == "overflow":
+                        continue     # wrap-around is judged where it happens, not at the callers
                     bad = [g for g, d in zip(sk.goals, sk.detail) if d is None]
                     if bad and all(entry_only(g) for g in bad):
                         sk.delegated = bad
                         req |= set(bad)
                 # (2) int_param <= len(slice_param)
-                rest = [sk for sk in unp if not sk.delegated]
+                rest = [sk for sk in unp if not sk.delegated and sk.kind != "overflow"]
                 hyps = candidate_hyps(b)
                 if rest and hyps:
                     a1 = Analysis(b, assume=hyps, requires=requires, summaries=summaries, posts=posts)
                     if len(a1.sinks) == len(a0.sinks):
                         for s0, s1 in zip(a0.sinks, a1.sinks):
+                            if s0.kind == "overflow":
+                                continue
                             if not s0.proven and not s0.delegated and s1.proven and getattr(s1, "used_assumptions", None):
                                 s0.delegated = sorted(s1.used_assumptions, key=repr)
                                 req |= set(s1.used_assumptions)
